@@ -93,6 +93,11 @@ PROPS = {
         note="jax.tree_util flatten order gives the leaf index; modelled and compared. The structure string is assumed free of ')' for the rendered-key theorem (it is a sequence of identifiers and '...').",
         technique="Lean 4 proof (frame property of the shape walk, injectivity of rendered keys, flag transparency by induction on leaf types) + differential run on generated tree pairs",
     ),
+    "C17": dict(
+        text="Kernel-checked theorems: the model's verdict AND bindings of one array check are the same for any two objects that answer the type test, .dtype and .shape alike (a tracer and the concrete array it stands for), in every context and mode; lifted to the typechecker's whole pass over the annotated values of a call (the walk C02 proves to be satisfiability), hence to replacing every payload as tracing does; and the tie to the source: the uses of the checked object on the check path, re-extracted on every run, are reads of `shape` and `dtype` and hand-offs to isinstance / hasattr / the two helpers only - no comparison, truth test, indexing or iteration (decide). On the real code: functions generated as in C02 over jax.Array (some parameters PyTrees of arrays) called eagerly with zeros / random / NaN values and under jit, eval_shape, vmap (random in_axes incl. None, batch axis at a random position; eager counterpart = per-example shapes), grad, value_and_grad and the compositions jit(jit), jit(vmap), vmap(jit), eval_shape(vmap), vmap(vmap), jit(grad): raise / no-raise must equal the eager call (and the model), no Concretization / TracerBoolConversion error may occur; a spy array records every attribute and special method touched.",
+        note="Partial: that JAX tracers report the shape / dtype of the values they stand for, that vmap strips the mapped axis, and that reading them does not concretise is JAX behaviour - validated on every generated function, not proved. Payload independence is proved for array annotations and sequences of them; for PyTree parameters it is evaluated on the implementation only.",
+        technique="Lean 4 proof (the check is a function of type test, dtype and shape; extracted attribute-use facts) + eager-vs-transformed differential run under jit / vmap / grad / eval_shape",
+    ),
     "C18": dict(
         text="Kernel-checked theorems about the model of the loader's bytecode cache: with the cache-name patch confined to get_code (fact re-extracted from the current source and decided, as is the presence of the typechecker hash in the tag), the invariant 'every entry is what its tag says' holds for every reachable cache and every load of every run of every history (any hooked subsets, typecheckers, nested import orders, source edits) executes the code the current source and configuration call for; tags of different configurations never collide; with the patch spanning exec_module a two-run history provably executes stale code (the repaired defect F1). On the real code: histories of 2-4 fresh interpreter runs over one cache directory with bytecode writing enabled, modules with nested imports, hooked subsets / typecheckers / source edits varied; per module: instrumented?, by which checker, current source?",
         note="Partial: the file system, mtime/size validation of pyc files and importlib's SourceLoader are modelled (version number = what the validation compares), not verified.",
